@@ -53,7 +53,7 @@ def all_templates(ctx):
 def check(ctx, floors=True, only_literals=False):
     P = ctx.P
     tpls = all_templates(ctx)
-    ctx.count("templates in the generator", len(tpls), 80 if floors else None)
+    ctx.count("templates in the generator", len(tpls), 56 if floors else None)
     # C09.1 / .6 / .7 literal confinement
     where = {"std": [], "alloc": [], "doc": [], "codec": []}
     for b, node, items, kind in tpls:
@@ -115,7 +115,7 @@ def check(ctx, floors=True, only_literals=False):
             ok = first is not None and first[0] == "interp" and peel(first[1].get("ty", "")).endswith("settings::AllocCratePath")
             ctx.expect(ok, "C09.3", "alloc-rooted/%s/%s" % (cshort(b["path"]), text), node["sp"], "rooted at an interpolated AllocCratePath",
                        "template `%s` names a heap-allocated prelude type but does not start with the AllocCratePath interpolation" % text)
-    ctx.count("alloc-rooted templates", n_alloc, 9)
+    ctx.count("alloc-rooted templates", n_alloc, 6)
     # literal root check: no template starts with a literal `:: core ::`-less absolute root other than core
     for b, node, items, kind in tpls:
         text = T.render_pos(items)
@@ -142,7 +142,7 @@ def check(ctx, floors=True, only_literals=False):
                 ok = (own and t == "P%d" % own[0]) or re.fullmatch(r"P\d+(\.settings)?\.alloc_crate_path", t) is not None
                 ctx.expect(ok, "C09.4", "alloc-thread/%s/%s" % (cshort(b["path"]), cshort(n["callee"])), n["sp"],
                            "passes its own alloc-path parameter / the settings' alloc path (`%s`)" % t, "conversion is called with alloc path `%s`" % t)
-    ctx.count("alloc-path threading sites", n_thread, 12)
+    ctx.count("alloc-path threading sites", n_thread, 8)
     # the tables and conversions themselves, with the strict root / threading expectation
     G.prim_syn_table(ctx, "C09.3", strict_root=True)
     with ctx.only(lambda k: not k.startswith("prelude/missing")):
